@@ -38,6 +38,24 @@ prop("C03", level="exploration",
      assumptions=["the reference delivery is jsoncons' own whole-buffer reader: the oracle is agreement, not absolute correctness (C02/C07 judge that)"],
      stages=[dict(name="delivery", driver="c03_delivery", flagset="asan", quick=120000, thorough=3000000)])
 
+prop("C05", level="exploration",
+     level_text="Structure-aware mutational workload under ASan+UBSan+LSan over ~70 public entry points: decode_*/try_decode_* from bytes, streams and iterators, readers, pull cursors (walk, read_to, typed getters), "
+                "incremental parsers and typed decoding (vector, map, tuple, struct) for JSON, CBOR, MessagePack, UBJSON, BSON, CSV and TOON; JSONPath/JMESPath compile+evaluate/json_query/json_replace/json_location, "
+                "JSON Pointer parse/get/mutators/flatten/unflatten, JSON Patch with hostile pointers, URI parse/resolve, JSON Schema compile+validate/walk with mutated schemas; every encoder x generated values (all tags, "
+                "non-finite doubles, decoder-produced kinds) x option sets (float_format x precision 0..127, bignum/byte-string formats, indent 0..255, nesting limits) and transcoding of decoded values into every other "
+                "encoder. Oracle: no sanitizer report, no leak, no internal assertion, no exception type outside the json_exception interface, no hang (30 s per case, re-checked in isolation).",
+     level_note="Quick tier: deterministic seeded mutation (no coverage feedback). Constructs that crash the unchanged tree (TOON reader on malformed text, unbounded recursion in schema $ref/expression nesting, ...) are open findings kept as "
+                "isolated witnesses (one process case each) and are not re-generated by the random workload, so that one known crash does not mask the rest.",
+     technique="runtime monitoring: compiler sanitizers (ASan, UBSan, LSan) + exception-channel monitor + watchdog over a structure-aware mutational workload",
+     rule="case = seed (encoding of a generated value, spec-style vector, JSONTestSuite/CSV fixture, expression, schema) + 0-5 byte/token mutations, executed through every entry point of its family; distinct = distinct mutated input; every input is non-trivial",
+     assumptions=["sanitizer coverage limits (intra-object overflow, quarantine reuse)", "seeds under /repo/test are read at run time"],
+     stages=[dict(name="decoders", driver="c05_decoders", flagset="asan", quick=64000, thorough=8000000),
+             dict(name="decoder_witnesses", driver="c05_decoders", flagset="asan", quick=5, thorough=5, args=["--mode", "witnesses"], workers_quick=1, workers_thorough=1),
+             dict(name="compilers", driver="c05_compilers", flagset="asan", quick=48000, thorough=6000000),
+             dict(name="compiler_witnesses", driver="c05_compilers", flagset="asan", quick=4, thorough=4, args=["--mode", "witnesses"], workers_quick=1, workers_thorough=1),
+             dict(name="encoders", driver="c05_encoders", flagset="asan", quick=32000, thorough=4000000),
+             dict(name="encoder_witnesses", driver="c05_encoders", flagset="asan", quick=2, thorough=2, args=["--mode", "witnesses", "--hang", "10"], workers_quick=1, workers_thorough=1)])
+
 prop("C06", level="exploration",
      level_text="Generated data-model values (every integer width boundary, length boundaries 23/24, 255/256, 65535/65536, all tags, NaN/Inf/-0.0, deep and wide containers, repeated strings) are "
                 "encoded by encode_X and by the streaming X_encoder and decoded from bytes/stream/iterator into json and ojson for CBOR, MessagePack, UBJSON and BSON under ASan+UBSan; the result is "
